@@ -5,6 +5,7 @@ package c02
 
 import (
 	"fmt"
+	"runtime/debug"
 	"testing"
 
 	"github.com/relab/hotstuff"
@@ -112,7 +113,51 @@ func describeAgg(s *cs.Spec, b cs.Built) string {
 }
 
 func TestC02Proposals(t *testing.T) {
-	common.Check(t, id, "TestC02Proposals", 4000, 80000, func(rt *rapid.T) propCase {
+	common.Check(t, id, "TestC02Proposals", 4000, 80000, genProposal, proposalProp)
+}
+
+// TestC10ProposalCertificates (property C10): the same proposals - genuine and hostile aggregate certificates combined with
+// every prepared block certificate, among them certificates WITHOUT a signature next to signed ones for the same block - must
+// never make proposal verification panic (it runs on the replica's event loop; nothing recovers there).
+func TestC10ProposalCertificates(t *testing.T) {
+	common.Check(t, "C10", "TestC10ProposalCertificates", 4000, 80000, genProposal, func(c propCase) common.Result {
+		w := cs.GetWorld(c.Scheme, c.N)
+		var agg *hotstuff.AggregateQC
+		view := hotstuff.View(9)
+		if c.Agg != nil {
+			built, err := w.Build(*c.Agg)
+			if err != nil {
+				return common.OK(false, "", "aggregate cannot be assembled")
+			}
+			agg = &built.AggQC
+			view = hotstuff.View(c.Agg.ClaimView + 1)
+		}
+		idx := ((c.BlockQC % cs.PoolSize) + cs.PoolSize) % cs.PoolSize
+		qc := w.Pool[idx]
+		blk := kit.NewBlock(qc.BlockHash(), qc, nil, view, 1)
+		auth := w.Auth(c.Verif, c.Cache, c.AggOn)
+		var panicMsg, stack string
+		var err error
+		func() {
+			defer func() {
+				if r := recover(); r != nil {
+					panicMsg, stack = fmt.Sprint(r), string(debug.Stack())
+				}
+			}()
+			err = auth.VerifyAnyQC(&hotstuff.ProposeMsg{ID: 1, Block: blk, AggregateQC: agg})
+		}()
+		if panicMsg != "" {
+			return common.Fail("panic:anyqc:"+common.TopRepoFrame(stack), "proposal verification panicked: %s\n%s n=%d aggregate-QCs-enabled=%v block certificate %q, aggregate %v\n%s", panicMsg, c.Scheme, c.N, c.AggOn, poolNames[idx], c.Agg != nil, stack)
+		}
+		verd := "reject"
+		if err == nil {
+			verd = "accept"
+		}
+		return common.OK(agg != nil && c.AggOn, fmt.Sprintf("%s|%d|%v|%s|%s", c.Scheme, c.N, c.AggOn, poolNames[idx], verd), "anyqc "+verd, "anyqc blockqc="+poolNames[idx])
+	})
+}
+
+func genProposal(rt *rapid.T) propCase {
 		c := propCase{AggOn: rapid.IntRange(0, 3).Draw(rt, "aggon") > 0}
 		var s cs.Spec
 		for tries := 0; ; tries++ {
@@ -143,6 +188,5 @@ func TestC02Proposals(t *testing.T) {
 		default:
 			c.BlockQC = rapid.IntRange(0, cs.PoolSize-1).Draw(rt, "pool")
 		}
-		return c
-	}, proposalProp)
+	return c
 }
